@@ -52,6 +52,30 @@ CLAIMS["C15"] = {
   "technique": "contract-based deductive verification: site obligations in WP-style VCs from go/ssa, SMT",
   "design_ref": "DESIGN.md section 4 C15",
 }
-NA = {k: PENDING for k in ["C01","C02","C04","C06","C11","C16","C17","C18","C19","C20"]}
+CLAIMS["C11"] = {
+  "text": "Proof that the exports/imports pattern machinery follows Node's algorithm: expansionKeysArray.Less is exactly PATTERN_KEY_COMPARE = -1 (and a strict order); in esmPackageImportsExportsResolve a key is passed over only if Node's PACKAGE_IMPORTS_EXPORTS_RESOLVE would not match it (loop invariant over the ordered keys) and a key's target is resolved only if Node would match it (site obligations at the calls of esmPackageTargetResolve), plus in-bounds slicing of the matched sub-path. One site obligation fails on the pinned tree and is a recorded known finding (request equal to the pattern base).",
+  "note": "NOT covered: PACKAGE_TARGET_RESOLVE's status classification, condition order, directory walking, main/index probing, symlink real paths, tsconfig paths semantics, browser map, the file system and its caches. strings.IndexByte/HasPrefix/HasSuffix are trusted contracts.",
+  "technique": "contract-based deductive verification: spec function transcribed from Node's algorithm, loop invariant + site obligations, SMT",
+  "design_ref": "DESIGN.md section 4 C11",
+}
+CLAIMS["C16"] = {
+  "text": "Proof of absence of panics (index, slice bounds, nil dereference, division, integer overflow where it feeds an index) and of termination (decreases clauses) for byte-level kernels that see attacker-controlled input first: sourcemap.DecodeVLQUTF16 (total), SourceMap.Find, js_ast.stringCompareUCS2, compat.compareVersions/isVersionSupported, helpers.StringArraysEqual, resolver.esmPackageImportsExportsResolve (sub-path slicing), resolver.matchTSConfigPaths (wildcard slicing); plus site rules that names taken from the source for labels and class expressions are checked for representability before a symbol is created (the printer otherwise panics).",
+  "note": "NOT covered: the recursive-descent parsers' own index arithmetic and recursion depth (stack exhaustion is a resource fault outside the model), the lexers, panic recovery plumbing and channel draining, deadlock, every function not listed. Preconditions such as non-nil receivers are assumptions at callers.",
+  "technique": "contract-based deductive verification: generated safety obligations + loop invariants/variants (SMT) and dominance-based site rules over go/ssa",
+  "design_ref": "DESIGN.md section 4 C16, family F8",
+}
+CLAIMS["C17"] = {
+  "text": "Proof of the effect licences of pkg/api.rebuildImpl: every WriteFile/MkdirAll is dominated, inside the writer goroutine, by the single-assignment cell shouldWriteFiles (stored once with !log.HasErrors() before the goroutines are created, never written by them) and, where the goroutine is created, by args.write and !WriteToStdout; the writer returns without writing only if writing is disabled or ReadFile of the same path returned bytes equal to the new contents; os.Remove is reached only under args.write and !WriteToStdout. In bundler.(*Bundle).Compile the set of protected paths provably contains the canonical path of every reachable input file in the file namespace (quantified loop invariant and loop-exit obligation) before outputs are compared against it.",
+  "note": "NOT covered: partial writes when MkdirAll/WriteFile themselves fail mid-way, symlink aliasing of paths, that outputs lie inside the output directory, the duplicate-output-path filter, the CLI's own writes, plugin on-end behaviour, latestHashes bookkeeping. canonicalFileSystemPathForWindows is modelled as an uninterpreted pure function.",
+  "technique": "contract-based deductive verification: effect-licence site obligations (control/data cone over go/ssa) + quantified loop invariants (SMT)",
+  "design_ref": "DESIGN.md section 4 C17, family F5",
+}
+CLAIMS["C20"] = {
+  "text": "Proof of the synchronisation discipline of the build context: every access to internalContext.activeBuild/recentBuild/didDispose/latestHashes happens with the context mutex held (must-held lockset dataflow, intersection at joins, immediately-invoked closures inherit the lockset), every Lock is released on every path, the mutex is never released unheld, and nothing that can reach WaitGroup.Wait is called while it is held; Cancel and Dispose return only after the build in progress has been waited for (postcondition with a ghost `waited` flag, SMT); every goroutine in api, bundler and linker that signals a wait group is announced with Add before its go statement.",
+  "note": "NOT covered - and not coverable by this family: absence of deadlock in general, progress, that a caller observes the result of exactly one build, plugin callback ordering beyond the Add-before-go rule, once-only loading under races, the stdio protocol's one-response-per-request rule, data-race freedom of everything not in the protector table. Goroutine interference is not modelled; one benign wait under the mutex in Serve is exempted with a stated reason.",
+  "technique": "contract-based deductive verification: lockset/hand-off obligations over go/ssa + ghost-state postconditions (SMT)",
+  "design_ref": "DESIGN.md section 4 C20, family F9",
+}
+NA = {k: PENDING for k in ["C01","C02","C04","C06","C18","C19"]}
 NA["C05"] = "Lowering correctness is equivalence between two JavaScript programs (native construct vs helper-call expansion; helpers are JS text in runtime.go); a Go-level contract can state an AST shape, not what the shape computes. The Go-level facts (a construct is lowered iff its feature bit is unsupported) are C14's gate obligations."
 NA["C13"] = "Output re-parses / is a fixed point of print∘parse / every valid program is accepted are relations over the whole lexer+parser+printer against the ECMAScript and CSS grammars; no function's postcondition states them short of a verified parser."
